@@ -7,6 +7,9 @@ Extract/C06x.vos Extract/C06x.vok Extract/C06x.required_vos: Extract/C06x.v Mode
 Extract/C07x.vo Extract/C07x.glob Extract/C07x.v.beautified Extract/C07x.required_vo: Extract/C07x.v Model/Io.vo Model/Cycle.vo Spec/C07Judge.vo
 Extract/C07x.vio: Extract/C07x.v Model/Io.vio Model/Cycle.vio Spec/C07Judge.vio
 Extract/C07x.vos Extract/C07x.vok Extract/C07x.required_vos: Extract/C07x.v Model/Io.vos Model/Cycle.vos Spec/C07Judge.vos
+Extract/C10x.vo Extract/C10x.glob Extract/C10x.v.beautified Extract/C10x.required_vo: Extract/C10x.v Model/RetainCodec.vo Model/CrashFs.vo
+Extract/C10x.vio: Extract/C10x.v Model/RetainCodec.vio Model/CrashFs.vio
+Extract/C10x.vos Extract/C10x.vok Extract/C10x.required_vos: Extract/C10x.v Model/RetainCodec.vos Model/CrashFs.vos
 Extract/C14x.vo Extract/C14x.glob Extract/C14x.v.beautified Extract/C14x.required_vo: Extract/C14x.v Model/LspText.vo Spec/C14.vo
 Extract/C14x.vio: Extract/C14x.v Model/LspText.vio Spec/C14.vio
 Extract/C14x.vos Extract/C14x.vok Extract/C14x.required_vos: Extract/C14x.v Model/LspText.vos Spec/C14.vos
@@ -16,6 +19,9 @@ Extract/C18x.vos Extract/C18x.vok Extract/C18x.required_vos: Extract/C18x.v gen/
 Model/Control.vo Model/Control.glob Model/Control.v.beautified Model/Control.required_vo: Model/Control.v gen/C18Tables.vo
 Model/Control.vio: Model/Control.v gen/C18Tables.vio
 Model/Control.vos Model/Control.vok Model/Control.required_vos: Model/Control.v gen/C18Tables.vos
+Model/CrashFs.vo Model/CrashFs.glob Model/CrashFs.v.beautified Model/CrashFs.required_vo: Model/CrashFs.v 
+Model/CrashFs.vio: Model/CrashFs.v 
+Model/CrashFs.vos Model/CrashFs.vok Model/CrashFs.required_vos: Model/CrashFs.v 
 Model/Cycle.vo Model/Cycle.glob Model/Cycle.v.beautified Model/Cycle.required_vo: Model/Cycle.v Model/Io.vo
 Model/Cycle.vio: Model/Cycle.v Model/Io.vio
 Model/Cycle.vos Model/Cycle.vok Model/Cycle.required_vos: Model/Cycle.v Model/Io.vos
@@ -28,6 +34,9 @@ Model/Io.vos Model/Io.vok Model/Io.required_vos: Model/Io.v
 Model/LspText.vo Model/LspText.glob Model/LspText.v.beautified Model/LspText.required_vo: Model/LspText.v 
 Model/LspText.vio: Model/LspText.v 
 Model/LspText.vos Model/LspText.vok Model/LspText.required_vos: Model/LspText.v 
+Model/RetainCodec.vo Model/RetainCodec.glob Model/RetainCodec.v.beautified Model/RetainCodec.required_vo: Model/RetainCodec.v 
+Model/RetainCodec.vio: Model/RetainCodec.v 
+Model/RetainCodec.vos Model/RetainCodec.vok Model/RetainCodec.required_vos: Model/RetainCodec.v 
 Model/Sched.vo Model/Sched.glob Model/Sched.v.beautified Model/Sched.required_vo: Model/Sched.v 
 Model/Sched.vio: Model/Sched.v 
 Model/Sched.vos Model/Sched.vok Model/Sched.required_vos: Model/Sched.v 
@@ -37,6 +46,9 @@ Proofs/C04Proofs.vos Proofs/C04Proofs.vok Proofs/C04Proofs.required_vos: Proofs/
 Proofs/C06Proofs.vo Proofs/C06Proofs.glob Proofs/C06Proofs.v.beautified Proofs/C06Proofs.required_vo: Proofs/C06Proofs.v Model/Sched.vo Spec/C06.vo
 Proofs/C06Proofs.vio: Proofs/C06Proofs.v Model/Sched.vio Spec/C06.vio
 Proofs/C06Proofs.vos Proofs/C06Proofs.vok Proofs/C06Proofs.required_vos: Proofs/C06Proofs.v Model/Sched.vos Spec/C06.vos
+Proofs/C10Proofs.vo Proofs/C10Proofs.glob Proofs/C10Proofs.v.beautified Proofs/C10Proofs.required_vo: Proofs/C10Proofs.v Model/RetainCodec.vo Model/CrashFs.vo
+Proofs/C10Proofs.vio: Proofs/C10Proofs.v Model/RetainCodec.vio Model/CrashFs.vio
+Proofs/C10Proofs.vos Proofs/C10Proofs.vok Proofs/C10Proofs.required_vos: Proofs/C10Proofs.v Model/RetainCodec.vos Model/CrashFs.vos
 Proofs/C14Proofs.vo Proofs/C14Proofs.glob Proofs/C14Proofs.v.beautified Proofs/C14Proofs.required_vo: Proofs/C14Proofs.v Model/LspText.vo Spec/C14.vo
 Proofs/C14Proofs.vio: Proofs/C14Proofs.v Model/LspText.vio Spec/C14.vio
 Proofs/C14Proofs.vos Proofs/C14Proofs.vok Proofs/C14Proofs.required_vos: Proofs/C14Proofs.v Model/LspText.vos Spec/C14.vos
@@ -61,6 +73,9 @@ Properties/C07.vos Properties/C07.vok Properties/C07.required_vos: Properties/C0
 Properties/C08.vo Properties/C08.glob Properties/C08.v.beautified Properties/C08.required_vo: Properties/C08.v Model/Io.vo Model/Cycle.vo Proofs/IoProofs.vo Proofs/CycleProofs.vo
 Properties/C08.vio: Properties/C08.v Model/Io.vio Model/Cycle.vio Proofs/IoProofs.vio Proofs/CycleProofs.vio
 Properties/C08.vos Properties/C08.vok Properties/C08.required_vos: Properties/C08.v Model/Io.vos Model/Cycle.vos Proofs/IoProofs.vos Proofs/CycleProofs.vos
+Properties/C10.vo Properties/C10.glob Properties/C10.v.beautified Properties/C10.required_vo: Properties/C10.v Model/RetainCodec.vo Model/CrashFs.vo Proofs/C10Proofs.vo
+Properties/C10.vio: Properties/C10.v Model/RetainCodec.vio Model/CrashFs.vio Proofs/C10Proofs.vio
+Properties/C10.vos Properties/C10.vok Properties/C10.required_vos: Properties/C10.v Model/RetainCodec.vos Model/CrashFs.vos Proofs/C10Proofs.vos
 Properties/C14.vo Properties/C14.glob Properties/C14.v.beautified Properties/C14.required_vo: Properties/C14.v Model/LspText.vo Spec/C14.vo Proofs/C14Proofs.vo
 Properties/C14.vio: Properties/C14.v Model/LspText.vio Spec/C14.vio Proofs/C14Proofs.vio
 Properties/C14.vos Properties/C14.vok Properties/C14.required_vos: Properties/C14.v Model/LspText.vos Spec/C14.vos Proofs/C14Proofs.vos
